@@ -377,7 +377,7 @@ pub fn run(tier: Tier) -> i32 {
         "C11",
         tier,
         "exploration",
-        "import graphs: EXHAUSTIVE over all directed graphs with self-loops on 1..=3 files (quick) / 1..=4 files (thorough) x every start file, each file declaring a complex type, a simple type and an anonymous-typed global element with names unique to it, in four namespace styles (distinct or colliding three-letter abbreviations x importer declares prefixes for what it imports or not) and with one namespace split over two files; proptest-generated graphs on 5-8 files with repeated imports; every graph with unreachable files is also run with those files removed / replaced by malformed and non-schema XML / replaced by other schemas (together with siblings whose names differ from reachable files' names in letter case only), and the output must be byte-identical. Each generation runs in an isolated worker process (exit class + wall time). Oracle: BFS reachability => expected multiset of struct names (syn). Non-trivial: graph with a cycle, a self-import, a diamond or an unreachable sibling; distinct by (edges, start, noise).",
+        "import graphs: EXHAUSTIVE over all directed graphs with self-loops on 1..=3 files (quick) / 1..=4 files (thorough) x every start file, each file declaring a complex type, a simple type and an anonymous-typed global element with names unique to it, in four namespace styles (distinct or colliding three-letter abbreviations x importer declares prefixes for what it imports or not) and with one namespace split over two files; proptest-generated graphs on 5-8 files with repeated imports; every 3-file graph of one namespace with one or two xs:include edges added (include-only files: at most once, no noise variants); every graph with unreachable files is also run with those files removed / replaced by malformed and non-schema XML / replaced by other schemas (together with siblings whose names differ from reachable files' names in letter case only), and the output must be byte-identical. Each generation runs in an isolated worker process (exit class + wall time). Oracle: BFS reachability => expected multiset of struct names (syn). Non-trivial: graph with a cycle, a self-import, a diamond or an unreachable sibling; distinct by (edges, start, noise).",
     );
     ev.assume("struct names are read from the output with syn (text scan if the output does not parse)");
     let nmax = tier.pick(3, 4);
